@@ -14,6 +14,7 @@ import IocProofs.Lemmas.ValueTop
 import IocProofs.Lemmas.ValueDefault
 import IocProofs.Lemmas.ValueTwice
 import IocProofs.Lemmas.ValueBinder
+import IocProofs.Lemmas.ValueKeys
 import IocProofs.Lemmas.SemStages
 namespace Ioc.C17
 open Ioc Ioc.Tag Ioc.Value
@@ -66,6 +67,33 @@ theorem C17_literal_partial (J : Json) (cfg : Cfg) (ty : FieldTy) (s : Bytes) (a
     bindValue J cfg ty (render s as) = decode ty (.str s) ∧
     bindValue J cfg .string (render s as) = .ok (.str s) :=
   literal_plain J cfg ty s as hl has
+
+/-- Which key a struct member is bound from.  The decoder looks for the key spelled exactly like the member's (yaml) name and,
+    failing that, for the first key equal to it up to letter case.  When no two keys of the map are equal up to letter
+    case (`foldDistinct`: what a section of a loaded document always is, its keys being lower-cased, and what a map
+    literal is unless it spells one key twice) that search IS the case-insensitive search: neither "exact first" nor
+    "first match" — Go's map order — plays a part. -/
+theorem C17_member_key_any_case (n : Bytes) (m : List (Bytes × Val)) (hd : foldDistinct m = true) :
+    lookupField n m = (m.find? (fun kv => lowerEq kv.1 n)).map (·.2) :=
+  lookupField_eq_find n m hd
+
+/-- A map literal written in a value tag (`map[Host:a Port:1]`, keys as written) and the same data taken from the
+    document (`host: a, port: 1`, keys lower-cased by the loader) bind the same struct: respelling the keys of a map in
+    another letter case (`Respelled`: same order, same values) does not change what any struct type binds from it,
+    error cases included. -/
+theorem C17_struct_keys_respelled (fs : List (Bytes × FieldTy)) (m m' : List (Bytes × Val))
+    (hr : Respelled m m') (hd : foldDistinct m = true) :
+    decode (.struct fs) (.map m) = decode (.struct fs) (.map m') := by
+  simp only [decode]
+  rw [decodeFields_respelled fs hr hd]
+
+/-- `-` and `_` are ordinary characters of a key: a sibling key that equals no member's name up to letter case (`_a`, `a-`
+    next to `a`; `max_conn` next to `maxconn`) may stand anywhere in the section without changing what the struct binds. -/
+theorem C17_decoy_key_ignored (fs : List (Bytes × FieldTy)) (d : Bytes) (w : Val) (m1 m2 : List (Bytes × Val))
+    (h : ∀ f ∈ fs, lowerEq d f.1 = false) :
+    decode (.struct fs) (.map (m1 ++ (d, w) :: m2)) = decode (.struct fs) (.map (m1 ++ m2)) := by
+  simp only [decode]
+  rw [decodeFields_decoy d w m1 m2 fs h]
 
 /-- A property that is populated AGAIN (its component's earlier creation failed; the Property object with TagStr,
     TagVal, arguments and field survived in the definition registry; the configuration may have been changed in
@@ -188,6 +216,19 @@ example : bindValue goJson (cfgK (.bool false)) .bool (ofString "${k:true}") = .
 example : bindValue goJson (cfgK (.flt 0)) .float (ofString "${k:0.5}") = .ok (.int 0) := by decide +kernel
 example : bindProp goJson (cfgK (.int 0)) .int (ofString "k:3") = .ok (.int 0) := by decide +kernel
 example : bindValue goJson (cfgK .null) .int (ofString "${k:3}") = .ok (.int 3) := by decide +kernel
+-- keys and member names in different letter case; sibling keys that differ by a separator
+def tyEndpoint : FieldTy := .struct [(ofString "host", .string), (ofString "PORT", .int)]
+def cfgEndpoint : Cfg := fun k => if k = ofString "k" then .map [(ofString "host", .str (ofString "a.example.org")), (ofString "port", .int 8443)] else .null
+example : Respelled [(ofString "Host", .str (ofString "a")), (ofString "Port", .int 1)] [(ofString "host", .str (ofString "a")), (ofString "port", .int 1)] :=
+  .cons (by decide) (.cons (by decide) .nil)
+example : foldDistinct [(ofString "Host", .str (ofString "a")), (ofString "Port", .int 1), (ofString "_host", .null)] = true := by decide
+example : foldDistinct [(ofString "Host", .null), (ofString "HOST", .null)] = false := by decide
+example : bindValue goJson cfgEndpoint tyEndpoint (ofString "map[Host:a.example.org Port:8443]") = bindPrefix goJson cfgEndpoint tyEndpoint (ofString "k") ∧
+    bindValue goJson cfgEndpoint tyEndpoint (ofString "${kx:map[HOST:a.example.org pOrt:8443]}") =
+      .ok (.struct [(ofString "host", .str (ofString "a.example.org")), (ofString "PORT", .int 8443)]) := by decide +kernel
+example : decode (.struct [(ofString "A", .int), (ofString "a_B", .string)])
+    (.map [(ofString "_a", .int 2), (ofString "a", .int 1), (ofString "a-", .int 3), (ofString "ab", .str (ofString "decoy")), (ofString "a_b", .str (ofString "right"))]) =
+    .ok (.struct [(ofString "A", .int 1), (ofString "a_B", .str (ofString "right"))]) := by decide
 example : PlainLiteral (ofString "hello world") = true := by decide
 example : bindValue goJson (cfgK .null) .string (ofString "hello world,required=false") = .ok (.str (ofString "hello world")) := by decide
 example : bindProp goJson (cfgK (.int 5)) .int (ofString "k,required=false") = .ok (.int 5) := by decide
